@@ -430,7 +430,8 @@ Qed.
 
 (* the entity alone does not keep the limit: it relies on the caller's KEEP_LAST step *)
 Theorem w_entity_alone_exceeds_refuted :
-  exists q ops, wq_mspi q = Some 2 /\ wq_depth q = Some 2 /    map slen (w_insts (w_run q ops)) = [3].
+  exists q ops, wq_mspi q = Some 2 /\ wq_depth q = Some 2 /\
+    map slen (w_insts (w_run q ops)) = [3].
 Proof.
   exists (mkWQ (Some 2) None None (Some 2) None), [WWrite 1 101 10 10; WWrite 1 102 20 20; WWrite 1 103 30 30].
   vm_compute. auto.
@@ -446,20 +447,20 @@ Theorem w_replacement_not_refused q ops h data ts now d s :
 Proof.
   intros N1 N2 N3 Ed Hd1 Hg F Hl.
   assert (Hinv : w_inv q (w_run q ops)) by (apply w_run_inv; auto; intros d' Ed'; congruence).
-  set (w := w_run q ops) in *. destruct Hinv as (Hq & (Hms & Hmi & Hmspi) & Hd).
+  remember (w_run q ops) as w eqn:Ew. clear Ew. destruct Hinv as (Hq & (Hms & Hmi & Hmspi) & Hd).
   cbn [w_step].
   destruct (w_pre_cases w h) as [E|(d' & s0 & sq & rest & l1 & l2 & Ed' & F0 & Hl0 & Es & El & Eu & Ef & Eseq & Eq & _)].
   { exfalso. destruct (w_pre_pops w h d s) as (s' & F' & L'); auto; [congruence|].
     rewrite E, F in F'. injection F' as <-. lia. }
   rewrite F in F0. injection F0 as <-. rewrite Hq in Ed'. assert (Hdd : d' = d) by congruence. rewrite Hdd in *.
-  set (w1 := w_pre w h) in *.
+  remember (w_pre w h) as w1 eqn:Ew1. clear Ew1.
   pose proof (w_write_outcome w1 h data ts now) as O. destruct (w_write w1 h data ts now) as [w' r]. cbn [snd].
   assert (Hreg : w_register w1 h = Some (w_insts w1)).
   { unfold w_register. replace (existsb (fun x => wi_h x =? h) (w_insts w1)) with true; [reflexivity|].
     symmetry. apply find_wi_existsb. eauto. }
   assert (Hslen : slen (mkWI (wi_h s) (wi_lwt s) rest) = d - 1).
   { unfold slen in *. cbn [wi_samples]. rewrite Es in Hl. cbn [length] in Hl. lia. }
-  inversion O as [Hr|insts1 Hr H1|insts1 Hr H1 H2|insts1 s1 chs Hr H1 H2 Hf Hc]; subst; try reflexivity; exfalso.
+  inversion O as [Hr|insts1 Hr H1|insts1 Hr H1 H2|insts1 s1 chs Hr H1 H2 Hf Hc]; try subst r; try reflexivity; exfalso.
   - congruence.
   - rewrite Hreg in Hr. injection Hr as <-. apply w_mspi_hit_iff in H1 as (m & s1 & Em & F1 & L & Hdm).
     rewrite Ef in F1. injection F1 as <-. rewrite Eq, Hq in Em, Hdm. specialize (Hdm d Ed).
